@@ -277,6 +277,8 @@ def vcs(spec, ctx, outs):
         if o["kind"] == "DomainError":
             return [VC("same-LocatedDifferential-through-different-routes:outside-domain", None, None, {"failed": False})]
         return [VC("same-LocatedDifferential-through-different-routes", z3.BoolVal(True), judge, {"candidates": ROUNDING_PRONE})]
+    if outs and outs[0].get("kind") == "skip":
+        return []
     env = ctx.consts
     spec_ab = o_eq(spec["a"], spec["b"], env)
     if spec.get("twin") == "claim-never-equal":
